@@ -27,6 +27,24 @@ deriving DecidableEq, Repr
 
 def VarInfo.key (v : VarInfo) : String × String := (v.name, v.scope)
 
+/-- `double` arithmetic kept abstract: the memo prologues of the samplers are translated over an arbitrary `FloatOps F`
+    (literals by their source text, libm functions by name), so what is proved about them holds for IEEE-754 binary64 as
+    for any other interpretation that satisfies the hypotheses a theorem states -/
+structure FloatOps (F : Type) where
+  lit : String → F
+  add : F → F → F
+  sub : F → F → F
+  mul : F → F → F
+  div : F → F → F
+  neg : F → F
+  fn : String → F → F
+  ne : F → F → Bool
+  eq : F → F → Bool
+  lt : F → F → Bool
+  le : F → F → Bool
+  gt : F → F → Bool
+  ge : F → F → Bool
+
 /-! ### Classification, keyed by variable name AND scope (function).  A variable that is not listed makes the
     theorems of Props/C15.lean fail, so a newly added static has to be looked at. -/
 
@@ -75,13 +93,15 @@ def reseedAllow : List ((String × String) × ReseedClass) := [
   (("cmi_logger_trial_idx", "file"), .foreignUnused)]
 
 /-- does the inventory entry meet the conditions of its class?  `stateVars`: variables the model's state record covers;
-    `seedWrites`: variables that `cmb_random_initialize` assigns in full (directly or through a callee). -/
-def VarInfo.reseedOk (stateVars seedWrites : List (String × String)) (v : VarInfo) : Bool :=
+    `seedWrites`: variables that `cmb_random_initialize` assigns in full (directly or through a callee); `memoVars`: the
+    function-static doubles whose maintaining statements were translated (`…_prologue`) and proved pure in Props/C15.lean §5. -/
+def VarInfo.reseedOk (stateVars seedWrites memoVars : List (String × String)) (v : VarInfo) : Bool :=
   match v.storage with
   | .threadLocal =>
     match reseedAllow.lookup v.key with
     | some .resetBySeed => !v.isExtern && stateVars.contains v.key && seedWrites.contains v.key
-    | some .memoOfArgument => !v.isExtern && v.scope != "file" && v.writers.all (· == v.scope) && v.readers.all (· == v.scope)
+    | some .memoOfArgument =>
+      !v.isExtern && v.scope != "file" && v.writers.all (· == v.scope) && v.readers.all (· == v.scope) && memoVars.contains v.key
     | some .foreignUnused => v.isExtern && v.writers.isEmpty && v.readers.isEmpty
     | none => false
   | _ => true
